@@ -6,7 +6,7 @@ VERUS_TECH = 'contract-based deductive verification (Verus/Z3) of functions extr
 
 PROPERTIES = {
     'C01': dict(
-        level='proof', verus=['rlabels', 'rbranch', 'rscan', 'rpool', 'rdecode', 'rframes', 'rattrs', 'rtables', 'raccept', 'rtree', 'rarms', 'rtypes'], kani=['flags'], enum=['cls'],
+        level='proof', verus=['rlabels', 'rbranch', 'rscan', 'rpool', 'rdecode', 'rframes', 'rattrs', 'rtables', 'raccept', 'rtree', 'rarms', 'rtypes', 'rpoolres', 'rannot'], kani=['flags'], enum=['cls'],
         technique=VERUS_TECH,
         claim='Unbounded proof, for the functions under contract only: the reader offset->Label table (bounds checks, exact lookup, frame, injectivity invariant), '
               'branch-target arithmetic and switch padding, the primitive big-endian readers, the header check (magic, every major version up to 67 whatever the minor), the constant-pool layout (JVMS 4.4, two slots for long/double), '
@@ -19,7 +19,7 @@ PROPERTIES = {
         out=['duke/src/class_reader.rs read_annotations_attribute / read_element_value* / read_type_annotations_* / read_module / read_record_component content', 'duke/src/class_reader/pool.rs get_loadable recursion through bootstrap methods',
              'duke/src/visitor/implementations/tree.rs (tree-building visitor)']),
     'C02': dict(
-        level='proof', verus=['cwrite', 'wjump', 'wpool', 'wencode', 'wattrs'], kani=['flags'], enum=['cls'],
+        level='proof', verus=['cwrite', 'wjump', 'wpool', 'wencode', 'wattrs', 'wtypes'], kani=['flags'], enum=['cls'],
         technique=VERUS_TECH,
         claim='Unbounded proof, for the functions under contract only: every jump emitted by if_helper/goto_helper/switch_helper has exactly the narrow / wide / inverted-if+goto_w byte shape with the offset that lands on the label, '
               'the narrow form is chosen iff the offset fits i16, unresolved jumps reserve a slot whose recorded patch position and base are exact, put_i16_at/put_i32_at patch big-endian and touch nothing else, '
@@ -59,7 +59,7 @@ PROPERTIES = {
         note='Trusted: Verus+Z3; rustc -Zunpretty=expanded as the source of the verified text; arm lifting; sink model vw_write (Vec<u8> write_all appends big-endian bytes, never fails); vectors fit their count field.',
         out=['recursive attribute variants using this._len()', 'AttributeInfo::_read / _len, ClassFile::read (pool with long/double)', 'CpInfo, FieldInfo, MethodInfo writers']),
     'C07': dict(
-        level='proof', verus=['remap'], kani=[],
+        level='proof', verus=['remap', 'remapapi'], kani=[],
         technique=VERUS_TECH,
         claim='Unbounded proof, for the functions under contract only: every `impl Mappable / MappableWithClassName for X` of dukebox/src/remap.rs returns a value in which every field / enum payload whose type carries '
               'class, field or method references holds the remapped value of the input\'s field (the remapper\'s own answer at the leaves), and every other field is unchanged (nothing dropped). '
@@ -97,7 +97,7 @@ PROPERTIES = {
         note='Bounded stand-in, NOT a proof: the operation works on IndexMap<JavaString,..> trees through nested closures and text I/O (outside Verus; CBMC gave no verdict in 10 min on one IndexMap insertion chain), so the real code is run natively on every mapping set of a stated small universe and compared with a model-level oracle written from the property statement (kx/enum/maps.rs: own model, own Tiny v2 renderer/parser). Inputs beyond the bound are not covered.',
         out=['quill/src/action/insert_dummy.rs (diff-side filter)']),
     'C06': dict(
-        level='other', verus=[], kani=[], enum=['mapdesc', 'maps'],
+        level='other', verus=['remapapi'], kani=[], enum=['mapdesc', 'maps'],
         technique=ENUM_TECH,
         explanation='Bounded stand-in for map_desc / map_class: all 137 257 strings of length <= 6 over {L ; [ a b I (} and all valid class names <= 4 over {a b / $ x}, compared with an independent scanner.',
         claim='Bounded (not proved): map_desc replaces exactly the class names inside L...; and keeps every other byte (shape preserved), fails exactly on an unterminated L or on L;, never panics; map_class returns the mapped name or the unchanged name. '
@@ -135,21 +135,21 @@ PROPERTIES = {
              'Bounded stand-in for the name predicates and as a second opinion on the parsers: native enumeration against an independent oracle (kx/enum).',
         out=['duke/src/tree/mod.rs names::is_valid_* (assumed / bounded only)', 'duke/src/tree/class.rs, field.rs, method.rs check_valid wrappers', 'unicode names beyond the bounded alphabet', 'signatures (check_valid accepts everything)']),
     'C16': dict(
-        level='proof', verus=['rlabels', 'cwrite', 'wjump', 'wpool', 'wencode', 'wattrs', 'rskip', 'rbranch', 'rscan', 'rpool', 'rdecode', 'rframes', 'rattrs', 'rtables', 'raccept', 'rtree', 'rarms', 'rtypes', 'adiff', 'scope', 'c20len', 'desc', 'inner'], kani=[], enum=['desc', 'mapdesc', 'cls'],
+        level='proof', verus=['rlabels', 'cwrite', 'wjump', 'wpool', 'wencode', 'wattrs', 'wtypes', 'rskip', 'rbranch', 'rscan', 'rpool', 'rdecode', 'rframes', 'rattrs', 'rtables', 'raccept', 'rtree', 'rarms', 'rtypes', 'rpoolres', 'rannot', 'aaccept', 'adiff', 'scope', 'c20len', 'desc', 'inner'], kani=[], enum=['desc', 'mapdesc', 'cls'],
         technique=VERUS_TECH + ': implicit safety obligations (overflow, index, unwrap, unreachable, termination)',
         claim='Unbounded proof of panic-freedom and termination for every function extracted for the other properties (Verus generates no-overflow, in-bounds, no-failing-unwrap, unreachable!() unreachable, decreases obligations for each). '
               'This includes the descriptor parsers (read_field_type, the three parse functions, get_arguments_size) on arbitrary text. Partial: the line-oriented text parsers built on BufRead are outside the verifier and not covered.',
         note='Trusted: as for the units involved (see evidence.trusted_base). Machine integers are machine integers; usize is 64 bit.',
         out=['quill/src/lines.rs, tiny_v2.rs, tiny_v2_diff.rs, enigma_file.rs, dukenest/src/io.rs (text parsers)', 'read_code closures']),
     'C17': dict(
-        level='proof', verus=['rskip', 'rattrs', 'raccept', 'rtree'], kani=[], enum=['cls'],
+        level='proof', verus=['rskip', 'rattrs', 'raccept', 'rtree', 'aaccept'], kani=[], enum=['cls'],
         technique=VERUS_TECH,
         claim='Unbounded proof, for the functions under contract only: skip_attributes consumes exactly the attribute table; with_pos restores the stream position; the primitive readers consume exactly their width; '
               'every decline path of read_field / read_method / read_record_component / the class attribute loop (interest flag off, ControlFlow::Break, visit_code() == None) consumes exactly the declined structure, '
               'so the items after it are read from the right offset; the first pass over the members and the declined-members path of the second pass consume exactly both member tables; '
               'Code / Method / Field / RecordComponent / ClassFile::accept deliver to the visitor exactly the facts the item holds and the visitor is interested in, once, with the right visible flag, nothing to an uninterested visitor '
               '(ghost event log on the visitor traits, specification generated from a table written from the property). Partial: what an interested arm of the reader consumes/delivers is C01 territory; annotation-level accept '
-              '(Annotation / ElementValue / TypeAnnotation::accept) is assumed; the composition "read then accept == read" is not proved as one theorem.',
+              '(TypeAnnotation::accept) is assumed, Annotation / ElementValue::accept are proved against recording visitors (unit aaccept); the composition "read then accept == read" is not proved as one theorem.',
         note='Trusted: Verus+Z3; extraction rewrites; assumed Cursor contracts for marker/skip/goto/read_n/read_u8_vec; from_be_bytes stubs; interested attribute arms abstracted to havoc_reader (stated drop); '
              'assumed ghost-log contracts on the visitor traits (declarations only); opaque tree payload types.',
         out=['interested attribute arms of the reader (content parsers)', 'duke/src/tree/annotation.rs, type_annotation.rs accept', 'duke/src/visitor/implementations/*.rs']),
